@@ -18,6 +18,8 @@ fn main() {
     std::panic::set_hook(Box::new(|_| {}));
     let with_tags = cfg!(feature = "tag-prediction");
     let mut pred: Option<Predictor> = None;
+    // the same predictor after a serialise / deserialise round trip under THIS feature set
+    let mut pred_rt: Option<Predictor> = None;
     for line in inp.lines() {
         let line = line.unwrap();
         if let Some(h) = line.strip_prefix("M ") {
@@ -27,8 +29,15 @@ fn main() {
                 Predictor::new(m, with_tags).map_err(|e| format!("{e}"))
             });
             pred = None;
+            pred_rt = None;
             match r {
                 Ok(Ok(p)) => {
+                    pred_rt = std::panic::catch_unwind(std::panic::AssertUnwindSafe(|| {
+                        let b = p.serialize_to_vec().ok()?;
+                        unsafe { Predictor::deserialize_from_slice_unchecked(&b) }.ok().map(|x| x.0)
+                    }))
+                    .ok()
+                    .flatten();
                     pred = Some(p);
                     writeln!(out, "M").unwrap();
                 }
@@ -40,7 +49,7 @@ fn main() {
                 writeln!(out, "S -").unwrap();
                 continue;
             };
-            let r = std::panic::catch_unwind(std::panic::AssertUnwindSafe(|| {
+            let run = |p: &Predictor| std::panic::catch_unwind(std::panic::AssertUnwindSafe(|| {
                 let mut s = Sentence::from_raw(t.to_string()).unwrap();
                 p.predict(&mut s);
                 #[cfg(feature = "tag-prediction")]
@@ -50,9 +59,12 @@ fn main() {
                 let tags: Vec<String> = s.tags().iter().map(|t| t.as_ref().map_or("-".to_string(), |t| t.to_string())).collect();
                 format!("S {}|{}|{}|{}", scores.join(","), labels, s.n_tags(), tags.join(","))
             }));
-            match r {
-                Ok(l) => writeln!(out, "{l}").unwrap(),
-                Err(_) => writeln!(out, "S panic").unwrap(),
+            let l1 = run(p).unwrap_or_else(|_| "S panic".to_string());
+            let l2 = pred_rt.as_ref().map_or("S no-round-trip".to_string(), |p| run(p).unwrap_or_else(|_| "S panic".to_string()));
+            if l1 == l2 {
+                writeln!(out, "{l1}").unwrap();
+            } else {
+                writeln!(out, "S round-trip-differs direct=[{l1}] deserialised=[{l2}]").unwrap();
             }
         }
     }
